@@ -29,7 +29,7 @@ META = dict(
     bounds=dict(
         quick="THREAD back-end only, gated model (one thread at a time, switches at synchronisation operations).  callable: CallableParallelExecution.execute with "
               "0-3 tasks, n_processes 1..n+1 for n<=2 and 1..2 for n=3 (so at most 2 concurrent workers with 3 tasks), one shared worker or one worker per task, "
-              "per task a solver-chosen outcome in {returns F(x_i), raises an ordinary exception, raises an exception listed in exceptions_to_re_raise (n<=2)}, "
+              "per task a solver-chosen outcome in {returns F(x_i), raises an ordinary exception (own configurations: a BaseException that is not an Exception, SystemExit), raises an exception listed in exceptions_to_re_raise (n<=2)}, "
               "1 or 2 callbacks (bare callable or list), with/without task_submitted_callback; task inputs symbolic reals, task results uninterpreted functions.  disc: "
               "DiscParallelExecution / DiscParallelLinearization on 2-3 uninterpreted disciplines (inputs x[1], p[1], outputs y[2]), one discipline per input (each may "
               "fail in _run, or in _compute_jacobian for linearization) or one discipline for 2 inputs, 2 workers; a MemoryFullCache(is_memory_shared=False) shared by the "
@@ -155,7 +155,8 @@ def _callable_scenario(ctx, cfg, sched, xs, modes, F, tag):
         def worker(inp):
             m = modes[inp.idx]
             if m == 1:
-                raised[inp.idx] = e = TaskError(f"task {inp.idx}")
+                # (base_exc: a failure that is not an Exception subclass, e.g. a wrapped code calling sys.exit(): the worker loop catches BaseException)
+                raised[inp.idx] = e = SystemExit(3) if cfg.get("base_exc") else TaskError(f"task {inp.idx}")
                 raise e
             if m == 2:
                 raised[inp.idx] = e = ReRaised(f"task {inp.idx}")
@@ -665,6 +666,7 @@ def configs(tier):
     # ---- callable
     out.append(C(n=0, w=1))
     out += [C(n=1, w=1), C(n=1, w=2, reraise=True, ncb=2, submitted=True)]
+    out += [C(n=2, w=2, base_exc=True), C(n=2, w=1, base_exc=True, shared=False, ncb=2)]
     for w in (1, 2, 3):
         for shared in (True, False):
             out.append(C(n=2, w=w, shared=shared))
